@@ -6,6 +6,7 @@ package main
 // the one of the matrix: the destination read back = the operation's specification applied to the source cues.
 
 import (
+	"bytes"
 	"fmt"
 	"os"
 	"os/exec"
@@ -139,5 +140,155 @@ func suiteConvertCLI(R *runner, r *rng) {
 		os.Remove(sp)
 		os.Remove(dp)
 		R.add(o)
+	}
+}
+
+// The CLI binary against the model (Model/Cli.v cli_run): every sub-command, valid and invalid flag values, every pair
+// of the codecs registered for the plain view; output file bytes (STL destinations: the two date fields, which come from
+// the real clock, masked) or the refusal (non-zero exit) compared with the model.
+func suiteConvertCLIModel(R *runner, r *rng) {
+	R.rule("CLI vs model: sub-commands apply-linear-correction / convert / fragment / merge / optimize / sync / unfragment / an invalid one, flags valid and invalid (zero or negative durations, missing second input), unstyled cue lists in arbitrary order with overlaps written by the library in the source format, every (source, destination) pair of the modelled codecs; the CLI's output bytes (or its refusal) vs cli_run")
+	cli := filepath.Join(buildDir, "astisub-cli")
+	if _, err := os.Stat(cli); err != nil {
+		R.note("CLI binary not built: " + err.Error())
+		return
+	}
+	dir, _ := os.MkdirTemp("", "verif-clim")
+	defer os.RemoveAll(dir)
+	N := 80
+	if R.tier == "thorough" {
+		N = 2000
+	}
+	ext := map[string]string{"srt": ".srt", "vtt": ".vtt", "ssa": ".ssa", "stl": ".stl", "ttml": ".ttml"}
+	for c := 0; c < N; c++ {
+		src := plainCodecs[r.intn(len(plainCodecs))]
+		dst := plainCodecs[r.intn(len(plainCodecs))]
+		if _, skip := plainSkipPairs[src.name+"->"+dst.name]; skip {
+			continue
+		}
+		n := 1 + r.intn(5)
+		cues := plainCues(r, n)
+		for i := range cues {
+			cues[i].Start = r.i64n(500) * 4e7
+			cues[i].End = cues[i].Start + (5+r.i64n(245))*4e7
+		}
+		if c%3 != 0 {
+			sortCuesByStart(cues)
+		}
+		var buf bytes.Buffer
+		if err := src.write(subsFromCues(cues), &buf); err != nil {
+			continue
+		}
+		doc := buf.Bytes()
+		sp := filepath.Join(dir, fmt.Sprintf("in-%d%s", c, ext[src.name]))
+		dp := filepath.Join(dir, fmt.Sprintf("out-%d%s", c, ext[dst.name]))
+		os.WriteFile(sp, doc, 0o644)
+		var a1, d1, a2, d2, f, sy int64
+		cmd := r.intn(8)
+		args := []string{}
+		var second []byte
+		dur := func(v int64) string { return time.Duration(v).String() }
+		switch cmd {
+		case 0:
+			a1 = r.i64n(10) * 1e9
+			if r.chance(1, 6) {
+				a1 = 0 // refused
+			} else if a1 == 0 {
+				a1 = 1e9
+			}
+			a2 = a1 + (1+r.i64n(3000))*1e9
+			d1 = a1 + r.i64n(3)*1e9
+			d2 = a2 + r.i64n(20)*1e9
+			if r.chance(1, 8) {
+				d1 = -d1 // refused
+			}
+			args = []string{"apply-linear-correction", "-i", sp, "-o", dp, "-a1", dur(a1), "-d1", dur(d1), "-a2", dur(a2), "-d2", dur(d2)}
+		case 1:
+			args = []string{"convert", "-i", sp, "-o", dp}
+		case 2:
+			f = (r.i64n(750) - 20) * 4e7 // zero and negative values are refused
+			args = []string{"fragment", "-i", sp, "-o", dp, "-f", dur(f)}
+		case 3:
+			args = []string{"merge", "-i", sp}
+			if r.chance(5, 6) {
+				mc := plainCues(r, 1+r.intn(3))
+				md, _ := renderSrt(r, mc)
+				second = []byte(md)
+				mp := filepath.Join(dir, fmt.Sprintf("second-%d.srt", c))
+				os.WriteFile(mp, second, 0o644)
+				defer os.Remove(mp)
+				args = append(args, "-i", mp)
+			}
+			args = append(args, "-o", dp)
+		case 4:
+			args = []string{"optimize", "-i", sp, "-o", dp}
+		case 5:
+			sy = r.rangeI64(-300, 625) * 4e7
+			if r.chance(1, 6) {
+				sy = 0 // refused
+			}
+			args = []string{"sync", "-i", sp, "-o", dp, "-s", dur(sy)}
+		case 6:
+			args = []string{"unfragment", "-i", sp, "-o", dp}
+		default:
+			args = []string{"frobnicate", "-i", sp, "-o", dp}
+		}
+		// the property's proviso: non-negative times (decided with the operation's specification)
+		if cmd == 5 || cmd == 0 {
+			neg := false
+			s0, _ := src.read(doc)
+			var ops []convOp
+			if cmd == 5 {
+				ops = []convOp{{name: "sync", d: sy}}
+			} else if a1 > 0 && d1 > 0 {
+				ops = []convOp{{name: "linear", a1: a1, d1: d1, a2: a2, d2: d2}}
+			}
+			if s0 != nil {
+				for _, w := range applyOpsSpecRaw(rawPlainOf(s0), ops, nil) {
+					if w.Start < 0 || w.End < 0 {
+						neg = true
+					}
+				}
+			}
+			if neg {
+				R.count("cli.model.skipped.negative_times")
+				os.Remove(sp)
+				continue
+			}
+		}
+		e := (&enc{}).n(src.code).n(dst.code).bytes(doc).n(cmd).i(a1).i(d1).i(a2).i(d2).i(f).i(sy)
+		if second != nil {
+			e.n(1).bytes(second)
+		} else {
+			e.n(0)
+		}
+		R.count("cli.model." + args[0])
+		o := &obs{Suite: "cliplain", Group: "cli.model", Input: e.String(), NT: true,
+			Human: map[string]interface{}{"source": src.name, "destination": dst.name, "args": strings.Join(args, " "), "document": string(doc)}}
+		out, cerr := exec.Command(cli, args...).CombinedOutput()
+		if cerr != nil {
+			o.Impl = "1"
+			o.Human.(map[string]interface{})["cli_output"] = trunc(string(out), 200)
+		} else if b, rerr := os.ReadFile(dp); rerr != nil {
+			o.Impl = "1"
+		} else {
+			if dst.name == "stl" && len(b) >= 236 {
+				for i := 224; i <= 235; i++ {
+					b[i] = '0'
+				}
+			}
+			o.Impl = (&enc{}).n(0).bytes(b).String()
+		}
+		os.Remove(sp)
+		os.Remove(dp)
+		R.add(o)
+	}
+}
+
+func sortCuesByStart(cues []srtCue) {
+	for i := 1; i < len(cues); i++ {
+		for j := i; j > 0 && cues[j-1].Start > cues[j].Start; j-- {
+			cues[j-1], cues[j] = cues[j], cues[j-1]
+		}
 	}
 }
